@@ -80,4 +80,9 @@ TEXTS["C01"] = {
     "note": "Real consensus/raft, dsstate, go-libp2p-raft FSM and hashicorp raft from /repo and the module cache, on loopback hosts and temp dirs. Schedules inside raft are explored by repetition only.",
     "technique": "model-based stateful property testing with restart/stop faults (rapid state machine), oracle = prefix-of-committed-sequence model",
 }
+TEXTS["C17"] = {
+    "level": "Model-based stateful testing of up to 4 full Cluster instances with real Raft consensus: generated sequences of PeerAdd (fresh staging peer), Join, PeerRemove (issued at leader or follower, against leader, follower or the caller itself), no-op adds/removes, removal of the last peer, interleaved with pins and unpins, re-pinning on or off; after each step every running member must report the model's peerset and pinset (bounded polling), a new peer must list exactly the model pinset when it reports ready, a removed peer must shut itself down and clean its Raft data, and with re-pinning on no pin may stay allocated only to the removed peer. Exploration level: few, expensive histories.",
+    "note": "Real cluster.go PeerAdd/PeerRemove/Join/watchPeers/Shutdown and consensus/raft from /repo on loopback hosts and temp dirs.",
+    "technique": "model-based stateful property testing of membership histories (rapid state machine)",
+}
 PENDING = {}
